@@ -211,6 +211,10 @@ func (d *PathDecoder) nameTokenRangeAtPos(filename string, pos hcl.Pos) (hcl.Ran
 
 func nameTokenRangeAtPos(tokens hclsyntax.Tokens, pos hcl.Pos) (hcl.Range, error) {
 	for i, t := range tokens {
+		if t.Type == hclsyntax.TokenIdent && t.Range.End.Byte == pos.Byte {
+			// right after an identifier (followed by anything)
+			return t.Range, nil
+		}
 		if t.Range.ContainsPos(pos) {
 			if t.Type == hclsyntax.TokenIdent {
 				return t.Range, nil
